@@ -24,7 +24,8 @@ Init == \E r \in 1..MAXR, c \in 1..MAXC, p \in PATS :
            /\ st = ImplCreate(r, c, W, H, Create(r, c, p).txt)
 
 SizeActs(s) == IF SIZEACTS THEN {[op |-> "colw", i |-> i, v |-> v] : i \in 1..C(s), v \in {1, 40}} \cup
-                                {[op |-> "rowh", i |-> i, v |-> v] : i \in 1..R(s), v \in {3}}
+                                {[op |-> "rowh", i |-> i, v |-> v] : i \in 1..R(s), v \in {3}} \cup
+                                (IF s.fw = SumSeq(s.colw) /\ s.fh = SumSeq(s.rowh) THEN {[op |-> "frame", w |-> s.fw + 7, h |-> s.fh + 5]} ELSE {})
                ELSE {}
 Acts(s) == MergeActs(s) \cup SplitActs(s) \cup {[op |-> "mergeOther", a |-> <<1, 1>>]} \cup SizeActs(s)
 
